@@ -25,7 +25,7 @@ Definition mcp_method_writes : list (store_method * list bytes) :=
     (M_CreatePartitions, [lit "EtcdStore.CreatePartitions -> EtcdStore.persistSnapshot -> EtcdStore.persistSnapshotLocked: etcd client.Put"%string; lit "EtcdStore.CreatePartitions -> EtcdStore.syncTopicConfigPartitions: etcd client.Put"%string; lit "EtcdStore.CreatePartitions -> InMemoryStore.CreatePartitions: takes the write lock mu.Lock"%string; lit "EtcdStore.CreatePartitions -> InMemoryStore.CreatePartitions: writes field topicConfigs"%string; lit "EtcdStore.CreatePartitions: etcd client.Put"%string; lit "InMemoryStore.CreatePartitions: takes the write lock mu.Lock"%string; lit "InMemoryStore.CreatePartitions: writes field topicConfigs"%string]);
     (M_CreateTopic, [lit "EtcdStore.CreateTopic -> EtcdStore.persistSnapshotLocked: etcd client.Put"%string; lit "EtcdStore.CreateTopic -> InMemoryStore.CreateTopic: takes the write lock mu.Lock"%string; lit "EtcdStore.CreateTopic -> InMemoryStore.CreateTopic: writes field state"%string; lit "EtcdStore.CreateTopic -> InMemoryStore.CreateTopic: writes field topicConfigs"%string; lit "InMemoryStore.CreateTopic: takes the write lock mu.Lock"%string; lit "InMemoryStore.CreateTopic: writes field state"%string; lit "InMemoryStore.CreateTopic: writes field topicConfigs"%string]);
     (M_DeleteConsumerGroup, [lit "EtcdStore.DeleteConsumerGroup: etcd client.Delete"%string; lit "InMemoryStore.DeleteConsumerGroup: delete from field consumerGroups"%string; lit "InMemoryStore.DeleteConsumerGroup: takes the write lock mu.Lock"%string]);
-    (M_DeleteTopic, [lit "EtcdStore.DeleteTopic -> EtcdStore.deleteConsumerOffsets: etcd client.Txn"%string; lit "EtcdStore.DeleteTopic -> EtcdStore.deleteTopicOffsets: etcd client.Delete"%string; lit "EtcdStore.DeleteTopic -> EtcdStore.persistSnapshotLocked: etcd client.Put"%string; lit "EtcdStore.DeleteTopic -> InMemoryStore.DeleteTopic: delete from field consumerMeta"%string; lit "EtcdStore.DeleteTopic -> InMemoryStore.DeleteTopic: delete from field consumerOffsets"%string; lit "EtcdStore.DeleteTopic -> InMemoryStore.DeleteTopic: delete from field offsets"%string; lit "EtcdStore.DeleteTopic -> InMemoryStore.DeleteTopic: delete from field topicConfigs"%string; lit "EtcdStore.DeleteTopic -> InMemoryStore.DeleteTopic: takes the write lock mu.Lock"%string; lit "EtcdStore.DeleteTopic -> InMemoryStore.DeleteTopic: writes field state"%string; lit "InMemoryStore.DeleteTopic: delete from field consumerMeta"%string; lit "InMemoryStore.DeleteTopic: delete from field consumerOffsets"%string; lit "InMemoryStore.DeleteTopic: delete from field offsets"%string; lit "InMemoryStore.DeleteTopic: delete from field topicConfigs"%string; lit "InMemoryStore.DeleteTopic: takes the write lock mu.Lock"%string; lit "InMemoryStore.DeleteTopic: writes field state"%string]);
+    (M_DeleteTopic, [lit "EtcdStore.DeleteTopic -> EtcdStore.deleteConsumerOffsets: etcd client.Delete"%string; lit "EtcdStore.DeleteTopic -> EtcdStore.deleteTopicOffsets: etcd client.Delete"%string; lit "EtcdStore.DeleteTopic -> EtcdStore.persistSnapshotLocked: etcd client.Put"%string; lit "EtcdStore.DeleteTopic -> InMemoryStore.DeleteTopic: delete from field consumerMeta"%string; lit "EtcdStore.DeleteTopic -> InMemoryStore.DeleteTopic: delete from field consumerOffsets"%string; lit "EtcdStore.DeleteTopic -> InMemoryStore.DeleteTopic: delete from field offsets"%string; lit "EtcdStore.DeleteTopic -> InMemoryStore.DeleteTopic: delete from field topicConfigs"%string; lit "EtcdStore.DeleteTopic -> InMemoryStore.DeleteTopic: takes the write lock mu.Lock"%string; lit "EtcdStore.DeleteTopic -> InMemoryStore.DeleteTopic: writes field state"%string; lit "InMemoryStore.DeleteTopic: delete from field consumerMeta"%string; lit "InMemoryStore.DeleteTopic: delete from field consumerOffsets"%string; lit "InMemoryStore.DeleteTopic: delete from field offsets"%string; lit "InMemoryStore.DeleteTopic: delete from field topicConfigs"%string; lit "InMemoryStore.DeleteTopic: takes the write lock mu.Lock"%string; lit "InMemoryStore.DeleteTopic: writes field state"%string]);
     (M_FetchConsumerGroup, []);
     (M_FetchConsumerOffset, []);
     (M_FetchTopicConfig, []);
